@@ -2,6 +2,7 @@ package checks
 
 import (
 	"bytes"
+	"encoding/binary"
 	"fmt"
 	"time"
 
@@ -28,7 +29,7 @@ func c10Bias(tier string) drv.Bias {
 	return b
 }
 
-var chanMuts = []string{"drop", "dup", "swap", "trunc", "height+", "height-", "version0", "version-", "version>", "nilkey", "emptykey", "nilvalue", "emptyvalue", "valueoninner", "keychange", "heightbig", "move"}
+var chanMuts = []string{"drop", "dup", "swap", "trunc", "height+", "height-", "version0", "version-", "version>", "nilkey", "emptykey", "nilvalue", "emptyvalue", "valueoninner", "keychange", "heightbig", "move", "deltahuge", "deltabig", "deltanone"}
 
 func genC10(seed uint64, run int, tier string) *drv.Plan {
 	r := sim.Sub(seed, "C10", run)
@@ -239,6 +240,17 @@ func applyChan(nodes []*iavl.ExportNode, faults []drv.ChanFault, importVersion i
 			n.Value = []byte("x")
 		case "keychange":
 			n.Key = append(append([]byte{}, n.Key...), 'z')
+		case "deltahuge":
+			// a delta-encoded key whose shared-prefix length does not fit an int
+			var hdr [binary.MaxVarintLen64]byte
+			k := binary.PutUvarint(hdr[:], uint64(1)<<63|uint64(f.Arg))
+			n.Key = append(append([]byte{}, hdr[:k]...), 'x')
+		case "deltabig":
+			var hdr [binary.MaxVarintLen64]byte
+			k := binary.PutUvarint(hdr[:], uint64(1000*f.Arg))
+			n.Key = append(append([]byte{}, hdr[:k]...), 'x')
+		case "deltanone":
+			n.Key = []byte{0x80} // truncated uvarint header
 		}
 	}
 	return nodes, fired
